@@ -171,6 +171,149 @@ func checkC09(c *Ctx) {
 			}
 		}
 	}
+	// the verdict may also be returned as an expression (`return !seen || now.After(exp)`): on a path where the
+	// returned value is the comparison itself, "false" (reject) holds exactly when the comparison is false
+	if !liveFound {
+		for _, pa := range enumeratePaths(nfn.Blocks[0], 500) {
+			v := resolveOnPath(pa.Ret.Results[0], pa)
+			neg := false
+			for {
+				if u, ok := v.(*ssa.UnOp); ok && u.Op == token.NOT {
+					v, neg = u.X, !neg
+					continue
+				}
+				break
+			}
+			call, ok := v.(*ssa.Call)
+			if !ok || len(call.Call.Args) != 2 {
+				continue
+			}
+			isAfter := calleeIs(call, "time", "Time", "After")
+			isBefore := calleeIs(call, "time", "Time", "Before")
+			if !isAfter && !isBefore {
+				continue
+			}
+			expFirst, expSecond := fromMapValue(call.Call.Args[0]), fromMapValue(call.Call.Args[1])
+			if !expFirst && !expSecond {
+				continue
+			}
+			// the request is rejected when the returned expression is false, i.e. the call is `neg`
+			holds := neg
+			rel := ""
+			switch {
+			case isAfter && expSecond:
+				rel = map[bool]string{true: "now>exp", false: "now<=exp"}[holds]
+			case isBefore && expSecond:
+				rel = map[bool]string{true: "now<exp", false: "now>=exp"}[holds]
+			case isAfter && expFirst:
+				rel = map[bool]string{true: "now<exp", false: "now>=exp"}[holds]
+			case isBefore && expFirst:
+				rel = map[bool]string{true: "now>exp", false: "now<=exp"}[holds]
+			}
+			liveFound = true
+			liveDesc = rel
+			liveClosed = rel == "now<=exp"
+		}
+	}
+	// an entry is (re)written only when the nonce is absent or its stored entry has expired: a rejected duplicate must
+	// not touch the stored expiry (it could shorten it and re-open the window for the original request)
+	nIns := 0
+	for _, b := range nfn.Blocks {
+		for _, ins := range b.Instrs {
+			mu, ok := ins.(*ssa.MapUpdate)
+			if !ok {
+				continue
+			}
+			nIns++
+			var fresh []Edge
+			for _, bb := range nfn.Blocks {
+				for i := range bb.Succs {
+					a, ok := edgeAtom(Edge{bb, i})
+					if !ok {
+						continue
+					}
+					// absent: comma-ok of a lookup with the same key is false
+					if ex, ok := a.X.(*ssa.Extract); ok && ex.Index == 1 {
+						if lk, ok := ex.Tuple.(*ssa.Lookup); ok && lk.CommaOk && lk.Index == mu.Key {
+							if (a.Op == token.EQL) != isBoolTrue(a.Y) || (a.Op == token.NEQ && isBoolTrue(a.Y)) {
+								fresh = append(fresh, Edge{bb, i})
+							}
+						}
+					}
+					// expired: After(now, exp) true / Before(exp, now) true with exp the looked-up value of the same key
+					if cc, ok := a.X.(*ssa.Call); ok && isBoolTrue(a.Y) && a.Op == token.EQL && len(cc.Call.Args) == 2 {
+						if calleeIs(cc, "time", "Time", "After") && fromMapValue(cc.Call.Args[1]) && sameMapEntry(cc.Call.Args[1], mu.Key) {
+							fresh = append(fresh, Edge{bb, i})
+						}
+						if calleeIs(cc, "time", "Time", "Before") && fromMapValue(cc.Call.Args[0]) && sameMapEntry(cc.Call.Args[0], mu.Key) {
+							fresh = append(fresh, Edge{bb, i})
+						}
+					}
+				}
+			}
+			// `fresh := !seen || now.After(exp); if fresh { insert }`: the condition is a phi of the two tests
+			isAbsentEdge := func(from, to *ssa.BasicBlock) bool {
+				for i, sc := range from.Succs {
+					if sc != to {
+						continue
+					}
+					a, ok := edgeAtom(Edge{from, i})
+					if !ok {
+						continue
+					}
+					if ex, ok := a.X.(*ssa.Extract); ok && ex.Index == 1 {
+						if lk, ok := ex.Tuple.(*ssa.Lookup); ok && lk.CommaOk && lk.Index == mu.Key {
+							if (a.Op == token.EQL && !isBoolTrue(a.Y)) || (a.Op == token.NEQ && isBoolTrue(a.Y)) {
+								return true
+							}
+						}
+					}
+				}
+				return false
+			}
+			isExpiredCall := func(v ssa.Value) bool {
+				cc, ok := v.(*ssa.Call)
+				if !ok || len(cc.Call.Args) != 2 {
+					return false
+				}
+				if calleeIs(cc, "time", "Time", "After") && fromMapValue(cc.Call.Args[1]) && sameMapEntry(cc.Call.Args[1], mu.Key) {
+					return true
+				}
+				return calleeIs(cc, "time", "Time", "Before") && fromMapValue(cc.Call.Args[0]) && sameMapEntry(cc.Call.Args[0], mu.Key)
+			}
+			for _, bb := range nfn.Blocks {
+				ifi, ok := bb.Instrs[len(bb.Instrs)-1].(*ssa.If)
+				if !ok {
+					continue
+				}
+				phi, ok := ifi.Cond.(*ssa.Phi)
+				if !ok {
+					continue
+				}
+				all := len(phi.Edges) > 0
+				for i, e := range phi.Edges {
+					switch {
+					case isExpiredCall(e):
+					case e == trueConst || (func() bool { cst, ok := e.(*ssa.Const); return ok && cst.Value != nil && cst.Value.String() == "true" })():
+						if !isAbsentEdge(phi.Block().Preds[i], phi.Block()) {
+							all = false
+						}
+					default:
+						if cst, ok := e.(*ssa.Const); !ok || cst.Value == nil || cst.Value.String() != "false" {
+							all = false
+						}
+					}
+				}
+				if all {
+					fresh = append(fresh, Edge{bb, 0})
+				}
+			}
+			okIns, _ := p.MustPass(nfn, mu, fresh)
+			c.Check(okIns && len(fresh) > 0, "C09.R1", fmt.Sprintf("ingress.%s:entry#%d written only for an absent or expired nonce", FuncName(nfn), nIns), p.InstrPos(mu),
+				"the insert is behind the not-present edge or the after-expiry edge of the same key",
+				"the stored expiry of a live nonce can be overwritten (the insert is reachable while the nonce is present and unexpired): a rejected duplicate carrying an older timestamp shortens the entry's life, after which the original request is accepted again inside its own tolerance window")
+		}
+	}
 	key := "ingress." + FuncName(nfn)
 	if !liveFound {
 		c.Fail("C09.R1", key+":liveness-test", p.Pos(nfn.Pos()), "no edge found on which a stored nonce rejects the request")
